@@ -199,7 +199,7 @@ def native_replay(ctx, o):
     equal-diagonal quadrilaterals, random convex and star-shaped polygons), every starting vertex and both orientations, compared with an
     independent shoelace / Bourke evaluation in Python."""
     from replaylib.native import run_native
-    if 'AxisymmetricVoxel' in o.name and 'emissivity_from_function' in o.name:
+    if 'AxisymmetricVoxel' in o.name and ('emissivity_from_function' in o.name or '__init__[triangulation]' in o.name):
         # Monte-Carlo average over the cross-section: no sample may fall outside the polygon (indicator of the complement averages to
         # exactly 0), a constant is reproduced exactly, the mean of f = r approaches the centroid radius; every starting vertex / orientation
         code = """
@@ -207,7 +207,9 @@ import math, numpy as np
 from matplotlib.path import Path
 from cherab.tools.inversions.voxels import AxisymmetricVoxel
 polys = [[(2, 0), (2, 4), (3, 3), (3, 1)], [(1, 0), (4, 0), (3, 1), (2, 1)], [(1, 1), (1, 2), (3, 2), (3, 1)], [(1, 0), (2, 0), (1.5, 1)],
-         [(2, 0), (3, 0.5), (3.5, 1.5), (2.2, 2.5), (1.5, 1.2)]]
+         [(2, 0), (3, 0.5), (3.5, 1.5), (2.2, 2.5), (1.5, 1.2)],
+         # concave cross-sections (L-shape, dart, U-shape)
+         [(1, 0), (3, 0), (3, 1), (2, 1), (2, 3), (1, 3)], [(1, 0), (2, 1), (3, 0), (2, 3)], [(1, 0), (4, 0), (4, 3), (3, 3), (3, 1), (2, 1), (2, 3), (1, 3)]]
 def shoelace(p):
     a = cx = 0.0
     for i in range(len(p)):
@@ -277,3 +279,47 @@ print(json.dumps({"cases": cases, "bad": bad[:3], "nbad": len(bad)}))
     if out and out.get('nbad'):
         return {'confirmed': True, 'input': out['bad'][0], 'observed': out, 'expected': exp}
     return {'confirmed': False, 'input': None, 'observed': out, 'expected': exp}
+
+
+def register_constructor(reg):
+    """AxisymmetricVoxel.__init__ (the part after the vertex-copy loop): the stored triangulation is the result of triangulate2d applied to
+    the vertex array AS IT IS AT THE END of the constructor - no write to the vertex array (such as the reversal of an anticlockwise
+    polygon) happens after the triangulation, so every triangle index refers to the vertex it was computed for.  This establishes the
+    partition hypothesis (`requires`) of emissivity_from_function."""
+    def post(P):
+        evs = P.calls('triangulate2d')
+        if not evs:
+            return []      # a path that fills the triangle table without triangulate2d (e.g. a literal for a triangle) is outside this clause
+        out = [("triangulation.one_call", z3.BoolVal(len(evs) == 1))]
+        if len(evs) != 1:
+            return out
+        ev = evs[0]
+        verts = P.value("self._vertices")
+        out.append(("triangulation.stored", as_bool(P.eng.identical(P.value("self._triangles"), ev.result))))
+        fid = P.eng.arr_fid(verts)
+        now = z3.Select(P.eng.field(P.st, fid), verts.ref)
+        snap = ev.heap.get(fid) if ev.heap is not None else None
+        then = z3.Select(snap, verts.ref) if snap is not None else z3.Select(P.eng.heap0.get(fid, P.eng.field(P.entry, fid)), verts.ref)
+        out.append(("triangulation.of_final_vertices", now == then))
+        return out
+    LG = lambda label, **kw: dict({'kind': 'logged', 'result': 'none', 'label': label, 'override': True, 'doc': label + ' (geometry construction; leaves the vertex array alone)'}, **kw)
+    reg.contract(V, "AxisymmetricVoxel.__init__", PROP, name='triangulation', attrs={"_vertices": "arr:real:2", "_triangles": "arr:int:2"},
+        sorts={"vertices": "ref", "num_vertices": "int", "primitive_type": "str", "parent": "ref", "material": "ref"},
+        requires=["not is_none(self._vertices)", "num_vertices >= 3", "self._vertices.shape[0] == num_vertices", "self._vertices.shape[1] == 2"],
+        externals={'winding2d': {'kind': 'pure', 'result': 'bool', 'doc': 'raysect winding2d (True: clockwise)'},
+                   'triangulate2d': {'kind': 'logged', 'result': 'arr:int:2', 'alloc': True, 'label': 'triangulate2d', 'doc': 'raysect triangulate2d (ear clipping)'},
+                   'array': {'kind': 'fresh', 'result': 'arr:int:2', 'alloc': True, 'doc': 'numpy.array'},
+                   'AxisymmetricVoxel._build_mesh': LG('_build_mesh'), 'AxisymmetricVoxel._has_rectangular_cross_section': LG('_has_rectangular_cross_section', result='bool'),
+                   'AxisymmetricVoxel._build_csg_from_rectangle': LG('_build_csg_from_rectangle'),
+                   'AxisymmetricVoxel._build_csg_from_triangle': LG('_build_csg_from_triangle')},
+        loops={1: dict(invariant=["unchanged('$d2:real')", "unchanged('_triangles:ref')", "unchanged('_vertices:ref')"])},
+        flags={'stmts_after_loop': True}, raises_any=["ValueError", "TypeError"],
+        ensures=[("triangulated_final_vertices", post)])
+
+
+_register_geometry = register
+
+
+def register(reg):
+    _register_geometry(reg)
+    register_constructor(reg)
